@@ -369,17 +369,7 @@ func (e *CoreExtension) filterSplit(value interface{}, args ...interface{}) (int
 
 	// Handle multiple character delimiters (split on any character in the delimiter)
 	if len(delimiter) > 1 {
-		// Convert delimiter string to a regex character class
-		pattern := "[" + regexp.QuoteMeta(delimiter) + "]"
-		re := regexp.MustCompile(pattern)
-
-		if limit > 0 {
-			// Manual split with limit
-			parts := re.Split(s, limit)
-			return parts, nil
-		}
-
-		return re.Split(s, -1), nil
+		return splitAny(s, delimiter, limit), nil
 	}
 
 	// Simple single character delimiter
@@ -388,6 +378,22 @@ func (e *CoreExtension) filterSplit(value interface{}, args ...interface{}) (int
 	}
 
 	return strings.Split(s, delimiter), nil
+}
+
+// splitAny splits s at every character that occurs in chars. A positive limit
+// bounds the number of parts; the last part then holds the unsplit remainder.
+func splitAny(s, chars string, limit int) []string {
+	parts := make([]string, 0, 4)
+	for limit <= 0 || len(parts) < limit-1 {
+		i := strings.IndexAny(s, chars)
+		if i < 0 {
+			break
+		}
+		_, size := utf8.DecodeRuneInString(s[i:])
+		parts = append(parts, s[:i])
+		s = s[i+size:]
+	}
+	return append(parts, s)
 }
 
 func (e *CoreExtension) filterDate(value interface{}, args ...interface{}) (interface{}, error) {
